@@ -887,6 +887,9 @@ class _PL(X.PyLower):
         return ("and",) + tuple(parts)
 
     def _leaf(self, e):
+        if isinstance(e, ast.Constant) and e.value is None:
+            # the same opaque symbol `x is None` is lowered with: equal to itself, never folded into arithmetic
+            return V("None")
         if isinstance(e, (ast.Tuple, ast.List)) and not any(isinstance(x, ast.Starred) for x in e.elts):
             return ("tuple",) + tuple(self.lower(x) for x in e.elts)
         if isinstance(e, ast.BoolOp):
